@@ -110,7 +110,10 @@ pub fn worker_main(args: &[String]) -> i32 {
     let deadline = arg_u64(args, "--deadline", now_unix() + max_secs);
     let seg_len = {
         let mut r = crate::rng::Rng::new(crate::rng::mix(seed ^ 0x5E6_5E6, start.wrapping_mul(1_000_003).wrapping_add(seg)));
-        [1u64, 2, 4, 10, 30, 100, 300][r.weighted(&[30, 20, 15, 10, 10, 10, 5])]
+        // a very long segment only where the budget allows one (thorough tier): histories of
+        // tens of thousands of builds in one process (counters that wrap, caches that fill up)
+        let long = if count >= 3000 { 2 } else { 0 };
+        [1u64, 2, 4, 10, 30, 100, 300, 3000][r.weighted(&[30, 20, 15, 10, 10, 10, 5, long])]
     };
     let this_count = if std::env::var_os("FQSIM_NO_SEGMENTS").is_some() { count } else { count.min(seg_len) };
     let mut ws = WorkerStats::default();
